@@ -2030,4 +2030,182 @@ theorem qr_column_ne_zero (A : Matrix ℝ)
 
 end rank
 
+/-! ### the reflection applied to its own column -/
+
+section reflects
+open scoped EasyMl.RealModel
+
+/-- applying the reflection of `x` to `x` itself subtracts `u`: `(H·x)_t = x_t − u_t` -/
+theorem householder_apply_self (x : List ℝ) (t : ℕ) (ht : t < x.length) :
+    x.getD t 0 - (householderV x).getD t 0 *
+      (∑ k ∈ range x.length, (householderV x).getD k 0 * x.getD k 0) * (1 + 1)
+      = x.getD t 0 - (householderU x).getD t 0 := by
+  obtain ⟨m, hm⟩ : ∃ m, x.length = m + 1 := ⟨x.length - 1, by omega⟩
+  obtain ⟨a, ha, hu0⟩ := householderU_getD_zero x (by omega)
+  set q := sumSq (householderU x) with hq
+  have hqs : q = ∑ k ∈ range x.length, (householderU x).getD k 0 * (householderU x).getD k 0 := by
+    rw [hq, sumSq_eq, householderU_length]
+  have hnn : 0 ≤ q := by rw [hqs]; exact sum_nonneg (fun t _ => mul_self_nonneg _)
+  simp only [householderV_getD]
+  rw [← hq]
+  by_cases h0 : q = 0
+  · have hall := (sum_eq_zero_iff_of_nonneg (fun t _ => mul_self_nonneg _)).mp (hqs ▸ h0)
+    have hut : (householderU x).getD t 0 = 0 := mul_self_eq_zero.mp (hall t (mem_range.mpr ht))
+    rw [h0, Real.sqrt_zero, hut]
+    simp
+  · have hs : Real.sqrt q * Real.sqrt q = q := Real.mul_self_sqrt hnn
+    have hsne : Real.sqrt q ≠ 0 := by
+      intro h; rw [h, mul_zero] at hs; exact h0 hs.symm
+    have hsum : ∑ k ∈ range x.length, (householderU x).getD k 0 / Real.sqrt q * x.getD k 0
+        = (∑ k ∈ range x.length, (householderU x).getD k 0 * x.getD k 0) / Real.sqrt q := by
+      rw [Finset.sum_div]
+      exact sum_congr rfl (fun k _ => by ring)
+    have hX : sumSq x = ∑ k ∈ range m, x.getD (k + 1) 0 * x.getD (k + 1) 0 + x.getD 0 0 * x.getD 0 0 := by
+      rw [sumSq_eq, hm, sum_range_succ']
+    have hq2 : q = ∑ k ∈ range m, x.getD (k + 1) 0 * x.getD (k + 1) 0
+        + (x.getD 0 0 + a) * (x.getD 0 0 + a) := by
+      rw [hqs, hm, sum_range_succ', hu0]
+      congr 1
+      exact sum_congr rfl (fun k _ => by rw [householderU_getD_succ])
+    have hp : ∑ k ∈ range x.length, (householderU x).getD k 0 * x.getD k 0
+        = ∑ k ∈ range m, x.getD (k + 1) 0 * x.getD (k + 1) 0 + (x.getD 0 0 + a) * x.getD 0 0 := by
+      rw [hm, sum_range_succ', hu0]
+      congr 1
+      exact sum_congr rfl (fun k _ => by rw [householderU_getD_succ])
+    have hhalf : ∑ k ∈ range x.length, (householderU x).getD k 0 * x.getD k 0 = q / 2 := by
+      rw [hp, hq2]
+      rw [hX] at ha
+      linarith [ha]
+    have hdiv : q / 2 / Real.sqrt q = Real.sqrt q / 2 := by
+      rw [div_div, div_eq_div_iff (by simpa using hsne) (by norm_num)]
+      linear_combination (-2 : ℝ) * hs
+    rw [hsum, hhalf, hdiv]
+    field_simp
+    ring
+
+/-- the signed norm the reflection aims at: `‖x‖` if the leading entry is positive, else `−‖x‖` -/
+noncomputable def householderA (x : List ℝ) : ℝ :=
+  if (0 : ℝ) < x.headD 0 then Real.sqrt (sumSq x) else -Real.sqrt (sumSq x)
+
+theorem householderU_head (x : List ℝ) (hx : 0 < x.length) :
+    (householderU x).getD 0 0 = x.getD 0 0 + householderA x := by
+  have hhead : x.headD 0 = x.getD 0 0 := by
+    cases x with
+    | nil => simp at hx
+    | cons a l => simp
+  unfold householderU euclideanLength householderA
+  simp only [RealModel.sqrt_eq]
+  rw [List.getD_eq_getElem?_getD, List.getElem?_set_self (by simpa using hx)]
+  simp only [Option.getD_some, hhead]
+  by_cases hsg : (0 : ℝ) < x.getD 0 0
+  · rw [if_pos ((RealModel.lt_eq _ _).mpr hsg), if_pos hsg]
+  · rw [if_neg (fun h => hsg ((RealModel.lt_eq _ _).mp h)), if_neg hsg]
+
+/-- **`H·x = −a·e₀`** with `a = ±‖x‖` (`householderA`): the matrix–vector product of the
+    reflection built from `x` with `x` is `−a` in the first entry and zero elsewhere. -/
+theorem householder_reflects_aux (x : List ℝ) (t : ℕ) (ht : t < x.length) :
+    ∑ k ∈ range x.length, get (householder x) t k * x.getD k 0
+      = if t = 0 then -householderA x else 0 := by
+  have hterm : ∀ k ∈ range x.length, get (householder x) t k * x.getD k 0
+      = (if t = k then x.getD k 0 else 0)
+        - (householderV x).getD t 0 * ((householderV x).getD k 0 * x.getD k 0) * (1 + 1) := by
+    intro k hk
+    rw [get_householder x ht (mem_range.mp hk)]
+    split <;> ring
+  rw [sum_congr rfl hterm, sum_sub_distrib, sum_ite_eq, if_pos (mem_range.mpr ht), ← sum_mul, ← mul_sum,
+    householder_apply_self x t ht]
+  cases t with
+  | zero => rw [if_pos rfl, householderU_head x ht]; ring
+  | succ t => rw [if_neg (by omega), householderU_getD_succ]; ring
+
+end reflects
+
+/-! ### the factorisations depend on the input through its size and cells only -/
+
+theorem forRange_congr {σ} (f g : ℕ → σ → Option σ) (n : ℕ) (s : σ)
+    (h : ∀ k, k < n → ∀ t, f k t = g k t) : forRange n f s = forRange n g s := by
+  induction n with
+  | zero => simp [forRange_zero]
+  | succ n ih =>
+    rw [forRange_succ, forRange_succ, ih (fun k hk => h k (by omega))]
+    cases forRange n g s with
+    | none => rfl
+    | some t => exact h n (Nat.lt_succ_self n) t
+
+theorem foldRange_congr {σ} (f g : ℕ → σ → σ) (n : ℕ) (s : σ)
+    (h : ∀ k, k < n → ∀ t, f k t = g k t) : foldRange n f s = foldRange n g s := by
+  induction n with
+  | zero => simp [foldRange_zero]
+  | succ n ih => rw [foldRange_succ, foldRange_succ, ih (fun k hk => h k (by omega)), h n (Nat.lt_succ_self n)]
+
+section congr
+variable {α : Type} [Add α] [Sub α] [Mul α] [Div α] [Neg α] [Zero α] [One α] [RealFns α] [NumOrd α]
+
+/-- **Cholesky depends on the input only through its size and the cells of its lower triangle**:
+    two inputs of the same size that agree at every `(i, j)`, `j ≤ i < n`, have the same outcome —
+    whatever they are stored as (a tensor, a lazily transposed / ranged / reversed view of one:
+    what matters is the cell function), and whatever stands above the diagonal. -/
+theorem cholesky_congr (A B : Matrix α) (hr : A.rows = B.rows) (hc : A.columns = B.columns)
+    (h : ∀ i j, i < A.rows → j ≤ i → get A i j = get B i j) : cholesky A = cholesky B := by
+  unfold cholesky
+  rw [← hr, ← hc]
+  by_cases hsq : A.rows = A.columns
+  · simp only [hsq, ne_eq, not_true_eq_false, if_false]
+    rw [← hsq]
+    apply forRange_congr
+    intro i hi L
+    unfold cholRow
+    apply forRange_congr
+    intro j hj L'
+    unfold cholEntry
+    rw [h i j hi (by omega)]
+  · simp [hsq]
+
+/-- **LDLᵀ depends on the input only through its size and the cells of its lower triangle.** -/
+theorem ldlt_congr (A B : Matrix α) (hr : A.rows = B.rows) (hc : A.columns = B.columns)
+    (h : ∀ i j, i < A.rows → j ≤ i → get A i j = get B i j) : ldlt A = ldlt B := by
+  unfold ldlt
+  rw [← hr, ← hc]
+  by_cases hsq : A.rows = A.columns
+  · simp only [hsq, ne_eq, not_true_eq_false, if_false]
+    rw [← hsq]
+    apply forRange_congr
+    intro j hj s
+    obtain ⟨L, D⟩ := s
+    unfold ldltColumn
+    simp only []
+    rw [h j j hj (le_refl j)]
+    split
+    · rfl
+    · congr 2
+      apply foldRange_congr
+      intro t ht L'
+      unfold ldltEntry
+      simp only []
+      by_cases h0 : j + t = j
+      · simp [h0]
+      · simp only [h0, if_false]
+        rw [h (j + t) j (by omega) (by omega)]
+  · simp [hsq]
+
+/-- QR depends on the input only through its size and its cells. -/
+theorem qr_congr (A B : Matrix α) (hr : A.rows = B.rows) (hc : A.columns = B.columns)
+    (h : ∀ i j, i < A.rows → j < A.columns → get A i j = get B i j) : qr A = qr B := by
+  have hinit : ofFn A.rows A.columns (get A) = ofFn B.rows B.columns (get B) := by
+    rw [← hr, ← hc]
+    unfold ofFn
+    congr 1
+    apply List.map_congr_left
+    intro k hk
+    have hk := List.mem_range.mp hk
+    by_cases hc0 : A.columns = 0
+    · rw [hc0] at hk; omega
+    · apply h
+      · exact (Nat.div_lt_iff_lt_mul (by omega)).mpr hk
+      · exact Nat.mod_lt _ (by omega)
+  unfold qr qrLoop
+  rw [hinit, hr, hc]
+
+end congr
+
 end EasyMl.Decomp
